@@ -30,6 +30,8 @@ func ParseProgram(p *ParserZH) *syntax.Program {
 				// parse import statement
 				stmt := ParseImportStmt(p)
 				program.ImportBlock = append(program.ImportBlock, stmt)
+			} else if match, _ := p.tryConsume(TypeStmtSep); match {
+				// 导入 statements are separated like any statements: by a line break or by ；
 			} else {
 				hState = stateExecBlock
 			}
